@@ -23,6 +23,7 @@ type Plan struct {
 	CutSeed  uint64 `json:"cut_seed,omitempty"`
 	MaxCuts  int    `json:"max_cuts,omitempty"`  // 0 = every cut
 	Draws    int    `json:"draws,omitempty"`     // power-loss draws per cut
+	KVLoss   bool   `json:"kv_loss,omitempty"`   // power loss also drops a suffix of the unsynced key-value units
 	OnlyCut  uint64 `json:"only_cut,omitempty"`  // minimised replay: just this cut (sequence number + 1) ...
 	OnlyDraw int    `json:"only_draw,omitempty"` // ... and this draw (0 = process crash)
 }
@@ -346,23 +347,38 @@ func runHistory(p *Plan, tree *refTree, res *simcore.Result, bubble bool) {
 // treeFindings are violations of the unchanged tree that were triaged as genuine
 // (NOTES.md). They are reported unless known_findings.jsonl lists their key;
 // CHAINSIM_ASSUME_FINDINGS=1 (development only) treats them as listed.
-var treeFindings = map[string]bool{
-	"head-state-missing:reinsert-known-canonical-block-rolls-state-back": true,
-	"logs-never-announced:known-block-made-head-again":                   true,
-	"added-log-twice:already-canonical-block-made-head-again":            true,
-	"restart-head-changed:pathdb-journal-failed-layer-stale":             true,
-	// C39: freezer-level causes already recorded under C24 (torn .meta file after power loss)
-	"reboot-canon-above-head:header-head-was-ahead-of-block-head":                    true,
-	"reboot-failed:power-loss:torn-freezer-metadata":                                 true,
-	"reboot-failed:power-loss:non-prunable-table-nonzero-tail":                       true,
-	"reboot-failed:process-crash:non-prunable-table-nonzero-tail":                    true,
-	"txlookup-wrong:stale-lookup-cache":                                              true,
-	"head-state-incomplete:pathdb-dangling-sibling-layer-stale":                      true,
-	"canon-above-head:header-head-was-ahead-of-block-head":                           true,
-	"canon-above-head:reimport-of-pruned-canonical-blocks-rewinds-head-below-frozen": true,
-	"canon-receipts-missing:unexecuted-sidechain-block-canonicalised":                true,
-	"logs-never-announced:unexecuted-sidechain-block-canonicalised":                  true,
-}
+var treeFindings = func() map[string]bool {
+	m := map[string]bool{}
+	for _, k := range []string{
+		// C38
+		"head-state-missing:reinsert-known-canonical-block-rolls-state-back",
+		"logs-never-announced:known-block-made-head-again",
+		"added-log-twice:already-canonical-block-made-head-again",
+		"restart-head-changed:pathdb-journal-failed-layer-stale",
+		"txlookup-wrong:stale-lookup-cache",
+		"head-state-incomplete:pathdb-dangling-sibling-layer-stale",
+		"canon-above-head:header-head-was-ahead-of-block-head",
+		"canon-above-head:reimport-of-pruned-canonical-blocks-rewinds-head-below-frozen",
+		"canon-receipts-missing:unexecuted-sidechain-block-canonicalised",
+		"logs-never-announced:unexecuted-sidechain-block-canonicalised",
+		// C39: freezer-level causes already recorded under C24
+		"reboot-failed:power-loss:torn-freezer-metadata",
+		"reboot-failed:power-loss:non-prunable-table-nonzero-tail",
+		"reboot-failed:process-crash:non-prunable-table-nonzero-tail",
+		// C39
+		"reboot-canon-gap:reorg-deletes-old-index-before-moving-head",
+		"reboot-panic:reset-on-missing-head-block-dereferences-nil-current-block",
+		"reboot-open-failed:reorg-deleted-canonical-hash-1-before-moving-head",
+		"reboot-head-state-missing:sethead-to-genesis-interrupted-before-state-recovery",
+		"reboot-canon-block-missing:partially-synced-freezer-tables-taken-for-pruned-history",
+		"reboot-head-state-missing:genesis-block-written-before-async-state-flush",
+		"reboot-chain-failed:genesis-state-on-disk-but-genesis-block-missing",
+		"reboot-txlookup-wrong:stale-lookup-cache",
+	} {
+		m[k] = true
+	}
+	return m
+}()
 
 var assumeFindings = os.Getenv("CHAINSIM_ASSUME_FINDINGS") != ""
 
